@@ -53,7 +53,12 @@ def _finish(m, sig, designer_terms, private_terms):
     return True
 
 
+OWN = ("i", "j", "u", "b", "r", "q", "s", "d", "dd")  # names the designer (this harness) gives to other objects of the same module
+
+
 def _site(site, nm, nm2, late):
+    if nm in OWN or nm2 in OWN:
+        return True  # the designer re-using one of their own names is not an invented-name clash (C18's subject)
     env.reset_all()
     m = h.Module(name="Top")
     C = _cell()
@@ -80,6 +85,18 @@ def _site(site, nm, nm2, late):
         m.b = h.BundleInstance(of=B)
         m.i = C({})(a=sig, b=m.b.x)
         des, priv = [("i", "a")], [("i", "b")]
+    elif site == 8:    # several members of one bundle whose flattened names collide with each other / the retry name
+        Y = h.Bundle(name="Y")
+        Y.add(h.Signal(name="z"))
+        B = h.Bundle(name="B")
+        B.add(h.Signal(name="x"))
+        B.add(h.Signal(name="x_"))
+        B.add(h.Signal(name="y_z"))
+        B.add(h.BundleInstance(name="y", of=Y))
+        m.b = h.BundleInstance(of=B)
+        m.i = C({})(a=m.b.x, b=m.b.x_)
+        m.j = C({})(a=m.b.y_z, b=m.b.y.z)
+        des, priv = [], [("i", "a"), ("i", "b"), ("j", "a"), ("j", "b")]
     elif site == 4:    # one named no-connect object shared by two ports
         nc = h.NoConn(name="xy")
         m.i = C({})(a=sig, b=nc)
@@ -105,11 +122,16 @@ def _site(site, nm, nm2, late):
             ok = not _same_net(pkg, (("i",), "b", 0), (("j",), "b", 0))
     if ok and extra is not None:
         ok = m.signals.get(extra.name, None) is extra
+    if ok and site == 8:
+        cs = [m.instances[i].conns[p] for i, p in priv]
+        ok = len({id(c) for c in cs}) == 4 and len({c.name for c in cs}) == 4
     return ok
 
 
 def _inst_site(site, nm, late):
     """array elements <arr>_<k> and pair members <pair>_<member> against a designer INSTANCE named nm"""
+    if nm in OWN:
+        return True
     env.reset_all()
     m = h.Module(name="Top")
     C = _cell()
@@ -156,7 +178,8 @@ def _inst_site(site, nm, late):
 
 _T = lambda n: {"quick": {"timeout": 150, "pre": [f"len(nm) <= {n}"]}, "thorough": {"timeout": 1200, "pre": [f"len(nm) <= {n + 2}"]}}
 _SITES = {0: "named no-connect 'xy'", 1: "unnamed no-connect (implicit i_b)", 2: "implicit signal behind a port reference (i_a)",
-          3: "flattened bundle member (b_x)", 4: "one named no-connect shared by two ports"}
+          3: "flattened bundle member (b_x)", 4: "one named no-connect shared by two ports",
+          8: "four members of one bundle with mutually colliding flattened names (b_x, b_x_, b_y_z from a scalar and from a nested member)"}
 for _k, _txt in _SITES.items():
     def _mk(k):
         def f(nm, late):
@@ -165,7 +188,7 @@ for _k, _txt in _SITES.items():
         return f
     _f = _mk(_k)
     globals()[_f.__name__] = harness(
-        "C05", args="nm: str, late: bool", pre=[], tiers=_T(3), sample=("xy" if _k in (0, 4) else "i_b", False),
+        "C05", args="nm: str, late: bool", pre=[], tiers=_T(3), sample=("xy" if _k in (0, 4) else ("b_x" if _k == 8 else "i_b"), False),
         bounds=f"naming site: {_txt}; designer signal name = any string of length <= 3 (quick) / <= 5 (thorough); declared before or after the instances",
         generalises="the designer's name as a symbolic string; declaration order", outside="longer names")(_f)
 
